@@ -207,8 +207,10 @@ func init() {
 		if ecg != nil && ecg.Body != nil {
 			ast.Inspect(ecg.Body, func(n ast.Node) bool {
 				if l, ok := n.(*ast.FuncLit); ok {
-					if c02norm(x, l.Body) == "{region.End()iferr:=copyGraph(ctx,src,dst,root,proxy,limiter,tracker,opts.CopyGraphOptions);err!=nil{returnerr}returnregion.Start()}" {
-						outer = true
+					if c02norm(x, l.Body) == "{region.End()iferr:=copyGraph(ctx,src,dst,root,proxy,limiter,tracker,opts.CopyGraphOptions);err!=nil{returnerr}returnregion.Start()}" &&
+						l.Type.Params != nil && len(l.Type.Params.List) == 3 && len(l.Type.Params.List[0].Names) == 1 &&
+						l.Type.Params.List[0].Names[0].Name == "ctx" && l.Type.Params.List[1].Names[0].Name == "region" {
+						outer = true // (the closure's own ctx -- the group context -- is the one given to copyGraph)
 					}
 				}
 				return true
